@@ -269,6 +269,7 @@ static int rm_cb (const char *p, const struct stat *sb, int t, struct FTW *f) { 
 static void cleanup_scratch (void)
 {
 	if (g_in_child || !g_scratch[0]) return;
+	if (getenv ("VERIF_KEEP_SCRATCH")) { fprintf (stderr, "scratch kept: %s\n", g_scratch); return; }
 	if (chdir ("/")) { }
 	nftw (g_scratch, rm_cb, 16, FTW_DEPTH | FTW_PHYS);
 }
